@@ -79,6 +79,9 @@ func (fr *Frame) nativeCall(b *ssa.BasicBlock, st *State, name string, callee *s
 		fr.trust("math/big.NewInt: fresh object holding the argument")
 		r := fr.alloc(st, "big")
 		fr.setBV(st, r, fr.scalar(args[0]))
+		if _, ok := numeral(fr.scalar(args[0])); ok {
+			fc.knownBig[r] = fr.scalar(args[0])
+		}
 		return Val{S: r, Typ: resT}, true
 	}
 	if strings.HasPrefix(name, "(*math/big.Int).") {
@@ -347,10 +350,14 @@ func (fr *Frame) bigMethod(b *ssa.BasicBlock, st *State, m string, args []Val, r
 		need()
 		fr.setBV(st, z, arg(1))
 		return ret()
-	case "Add", "Sub", "Mul":
+	case "Add", "Sub":
 		need(1, 2)
-		op := map[string]string{"Add": "+", "Sub": "-", "Mul": "*"}[m]
+		op := map[string]string{"Add": "+", "Sub": "-"}[m]
 		fr.setBV(st, z, sApp(op, v(1), v(2)))
+		return ret()
+	case "Mul":
+		need(1, 2)
+		fr.setBV(st, z, fr.mulTerm(fr.bigOperand(st, arg(1)), fr.bigOperand(st, arg(2))))
 		return ret()
 	case "Neg":
 		need(1)
@@ -683,4 +690,28 @@ func (fr *Frame) havocAnyFields(st *State, r string) {
 			fc.pendingVals = append(fc.pendingVals, Val{S: hv, Typ: heapValType[name]})
 		}
 	}
+}
+
+// bigOperand: value of a big.Int operand; a literal when the object was just created by NewInt(<literal>)
+func (fr *Frame) bigOperand(st *State, ref string) string {
+	if lit, ok := fr.fc.knownBig[ref]; ok {
+		return lit
+	}
+	return fr.bv(st, ref)
+}
+
+// mulTerm: products of two non-literal terms are abstracted by the uninterpreted mulI unless the contract
+// asks for nonlinear arithmetic (keeps irrelevant products from dragging the solver into NIA)
+func (fr *Frame) mulTerm(a, b string) string {
+	_, na := numeral(a)
+	_, nb := numeral(b)
+	if na || nb || strings.HasPrefix(a, "(- ") && len(a) < 30 || fr.fc.nonlinear {
+		return sApp("*", a, b)
+	}
+	fc := fr.fc
+	if !fc.declSet["fun:mulI"] {
+		fc.declSet["fun:mulI"] = true
+		fc.decls = append(fc.decls, "(declare-fun mulI (Int Int) Int)")
+	}
+	return sApp("mulI", a, b)
 }
